@@ -166,7 +166,7 @@ ElemElement::startElement(StylesheetExecutionContext&       executionContext) co
 
         const XalanDOMString::size_type     indexOfNSSep = indexOf(elemName, XalanUnicode::charColon);
 
-        const bool  havePrefix = indexOfNSSep == len ? false : true;
+        bool    havePrefix = indexOfNSSep == len ? false : true;
 
         const GetCachedString   prefixGuard(executionContext);
 
@@ -205,6 +205,19 @@ ElemElement::startElement(StylesheetExecutionContext&       executionContext) co
                 equals(prefix, DOMServices::s_XMLNamespace) == false)
             {
                 elemNameSpace = *theNamespace;
+            }
+            else if (namespaceLen != 0 &&
+                     (equals(prefix, DOMServices::s_XMLNamespace) == true ||
+                      (equals(prefix, DOMServices::s_XMLString) == true &&
+                       equals(elemNameSpace, DOMServices::s_XMLNamespaceURI) == false)))
+            {
+                // The prefixes xmlns and xml are reserved and cannot be bound
+                // to the requested namespace.  Drop the prefix; the element is
+                // put into the requested namespace through a default namespace
+                // declaration below.
+                elemName.erase(0, indexOfNSSep + 1);
+
+                havePrefix = false;
             }
         }
 
